@@ -1,4 +1,5 @@
 import Aegean.Driver.Common
+import Aegean.Generated.C18
 import Aegean.Model.C18
 
 /-
@@ -15,6 +16,13 @@ import Aegean.Model.C18
          file (table/fits) = <name> <kind> <rows: idx,idx,..> <cols: name:FMT,...> <strings: col=hex|hex|..;col=...>
          file (db)         = <tablename> <kind> <rows> <cols: name:TYPE,...> -
       -> raises            when the model says the writer raises (zero-width string column)
+  gen fits <is_err> <is_uuid> <kind> <maxlen> <t> <vlen>  -> <letter> <width>     (regenerated table, raw)
+  gen sql <t>                                             -> <code>
+  gen cls <c>                                             -> <which>
+
+  The partition, the FITS formats and the sqlite column types answered by `cat` are assembled from the
+  REGENERATED tables (`classifyG Gen.C18.classifyWhich`, `columnFmtG Gen.C18.fitsLetter Gen.C18.fitsWidth`,
+  `sqlTypeG Gen.C18.sqlCode`), which `Properties/C18.lean` proves equal to the model's.
 -/
 namespace Drv.C18
 open Drv Aegean.Model.C18
@@ -93,10 +101,15 @@ def commaOr (l : List String) : String := if l.isEmpty then "-" else ",".interca
 
 /-- the sources that went into a file, recovered from the model's partition (same order) -/
 def rowsOfKind (k : Kind) (cat : List (Src Float)) : List (Src Float) :=
+  let c := classifyG Gen.C18.classifyWhich cat
   match k with
-  | .comp => (classify cat).1
-  | .isle => (classify cat).2.1
-  | .simp => (classify cat).2.2
+  | .comp => c.1
+  | .isle => c.2.1
+  | .simp => c.2.2
+
+/-- the regenerated column decision; a letter the model does not know is shown as a zero-width `A` -/
+def columnFmtGen (name : Str) (col : List (Val Float)) : Fmt :=
+  (columnFmtG Gen.C18.fitsLetter Gen.C18.fitsWidth name col).getD (.A 0)
 
 def showStrCol (c : Str × Fmt × List (Val Float)) : Option String :=
   match c.2.1 with
@@ -106,7 +119,7 @@ def showStrCol (c : Str × Fmt × List (Val Float)) : Option String :=
 def showFile (pinned : Bool) (fits : Bool) (cat : List (Src Float)) (f : FileOut Float) : Option String :=
   let rows := commaOr ((rowsOfKind f.kind cat).map idxOf)
   if fits then
-    match fitsWrite opsF (if pinned then columnFmtPinned else columnFmt) f.table with
+    match fitsWrite opsF (if pinned then columnFmtPinned else columnFmtGen) f.table with
     | none => none
     | some cols =>
       let cs := commaOr (cols.map (fun c => encS c.1 ++ ":" ++ showFmt c.2.1))
@@ -124,7 +137,9 @@ def showDb (cat : List (Src Float)) (t : DbTable Float) : String :=
   -- rows are identified by position in the model's partition (db rows carry no index): check lengths agree
   let srcs := rowsOfKind k cat
   let rows := if srcs.length = t.rows.length then commaOr (srcs.map idxOf) else "row-count-mismatch"
-  let cs := commaOr (t.cols.map (fun c => encS c.1 ++ ":" ++ String.ofList c.2))
+  let first : Src Float := srcs.head?.getD ⟨.other, []⟩
+  let cs := commaOr (t.cols.map (fun c => encS c.1 ++ ":" ++
+    (match sqlTypeG Gen.C18.sqlCode (first.get c.1) with | some ty => String.ofList ty | none => "?")))
   s!"{encS t.name} {showKind k} {rows} {cs} -"
 
 def handle (ws : List String) : String :=
@@ -138,6 +153,13 @@ def handle (ws : List String) : String :=
     | some p =>
       s!"{encS (extension p)} {showWriter (dispatch (extension p))} {encS (newName .comp p)} {encS (newName .isle p)} {encS (newName .simp p)}"
     | none => "bad-op"
+  | ["gen", "fits", a, b, c, d, e, f] =>
+    match a.toNat?, b.toNat?, c.toNat?, d.toNat?, e.toNat?, f.toNat? with
+    | some a, some b, some c, some d, some e, some f =>
+      s!"{Gen.C18.fitsLetter a b c d e f} {Gen.C18.fitsWidth a b c d e f}"
+    | _, _, _, _, _, _ => "bad-op"
+  | ["gen", "sql", t] => match t.toNat? with | some t => s!"{Gen.C18.sqlCode t}" | none => "bad-op"
+  | ["gen", "cls", c] => match c.toNat? with | some c => s!"{Gen.C18.classifyWhich c}" | none => "bad-op"
   | ["single", x] =>
     match parseFloat? x with
     | some f => showFloat (opsF.single f)
